@@ -217,6 +217,10 @@ def clenshaw_qbfs(cs, usq, alphas=None):
 
     """
     x = usq
+    if len(cs) == 1 and alphas is None:
+        # the recurrence needs two terms; a zero coefficient for Q1 does not change the sum
+        cs = np.append(np.asarray(cs, dtype=config.precision), 0)
+
     bs = change_basis_Qbfs_to_Pn(cs)
     # alphas = np.zeros((len(cs), len(u)), dtype=u.dtype)
     alphas = _initialize_alphas(cs, x, alphas, j=0)
@@ -265,6 +269,10 @@ def clenshaw_qbfs_der(cs, usq, j=1, alphas=None):
 
     """
     x = usq
+    if len(cs) == 1 and alphas is None:
+        # the recurrence needs two terms; a zero coefficient for Q1 does not change the sum
+        cs = np.append(np.asarray(cs, dtype=config.precision), 0)
+
     M = len(cs) - 1
     prefix = 2 - 4 * x
     alphas = _initialize_alphas(cs, usq, alphas, j=j)
